@@ -89,6 +89,19 @@ fn payload(seed: u32, k: u32) -> [u8; 512] {
 
 type Drv = SdCard<SimCard, NoDelay>;
 
+/// Read buffers arrive with old contents: here well-formed CMD12 and CMD0 frames, so that a
+/// driver that clocks the buffer out instead of idling MOSI visibly disturbs the card.
+fn dirty_block() -> Block {
+    let mut b = Block::new();
+    let frames: [[u8; 6]; 2] = [[0x4C, 0, 0, 0, 0, 0x61], [0x40, 0, 0, 0, 0, 0x95]];
+    for (i, c) in b.contents.chunks_mut(6).enumerate() {
+        let f = frames[(i / 3) % 2];
+        let n = c.len();
+        c.copy_from_slice(&f[..n]);
+    }
+    b
+}
+
 #[derive(Debug, Clone, PartialEq)]
 enum Out {
     Read(Vec<[u8; 512]>),
@@ -109,7 +122,7 @@ fn do_call(sd: &Drv, card: &SimCard, call: &SdCall, blocks_cap: u64, written: &[
                 let n = ((*n).max(1) as u64).min(blocks_cap) as u32;
                 start = block.resolve(blocks_cap, n);
                 count = n;
-                let mut bl = vec![Block::new(); n as usize];
+                let mut bl = vec![dirty_block(); n as usize];
                 sd.read(&mut bl, BlockIdx(start)).map_err(|e| format!("{:?}", e))?;
                 Ok(Out::Read(bl.iter().map(|b| b.contents).collect()))
             }
@@ -118,7 +131,7 @@ fn do_call(sd: &Drv, card: &SimCard, call: &SdCall, blocks_cap: u64, written: &[
                 let base = if written.is_empty() { 0 } else { written[(*which as usize * written.len()) >> 16] };
                 start = (base as u64).min(blocks_cap.saturating_sub(n as u64)) as u32;
                 count = n;
-                let mut bl = vec![Block::new(); n as usize];
+                let mut bl = vec![dirty_block(); n as usize];
                 sd.read(&mut bl, BlockIdx(start)).map_err(|e| format!("{:?}", e))?;
                 Ok(Out::Read(bl.iter().map(|b| b.contents).collect()))
             }
@@ -182,6 +195,7 @@ pub fn run_clean(c: &SdCase, split: bool, prop: &'static str, acc: &mut Acc) -> 
     let mut model: HashMap<u32, [u8; 512]> = HashMap::new();
     let mut written: Vec<u32> = Vec::new();
     let mut reads = Vec::new();
+    let mut init_failed_once = false;
     let _ = expand_to_singles;
     for (i, call) in c.calls.iter().enumerate() {
         // split multi-block transfers into singles when asked
@@ -219,16 +233,42 @@ pub fn run_clean(c: &SdCase, split: bool, prop: &'static str, acc: &mut Acc) -> 
                             model.insert(s + k, payload(*seed, k));
                             written.push(s + k);
                         }
-                        Ok(Err(e)) => return Err(fail(prop, "write-failed", format!("call {} (split): write of block {} failed: {:?}", i, s + k, e))),
+                        Ok(Err(e)) => {
+                            if c.timing.init_polls > 10_000 && !init_failed_once && format!("{:?}", e).contains("TimeoutACommand") {
+                                init_failed_once = true;
+                                // retry the same block once
+                                match catch_unwind(AssertUnwindSafe(|| sd.write(&bl, BlockIdx(s + k)))) {
+                                    Ok(Ok(())) => {
+                                        model.insert(s + k, payload(*seed, k));
+                                        written.push(s + k);
+                                        continue;
+                                    }
+                                    other => return Err(fail(prop, "write-failed", format!("call {} (split): retry after initialisation time-out failed: {:?}", i, other.map_err(|_| "panic")))),
+                                }
+                            }
+                            return Err(fail(prop, "write-failed", format!("call {} (split): write of block {} failed: {:?}", i, s + k, e)));
+                        }
                         Err(p) => return Err(fail(prop, "panic", format!("call {}: {}", i, crate::interp::panic_msg(&p).0))),
                     }
                 }
                 continue;
             }
-            let (r, start, count) = match do_call(&sd, &card, &piece, blocks_cap, &written) {
+            let (mut r, mut start, mut count) = match do_call(&sd, &card, &piece, blocks_cap, &written) {
                 Ok(x) => x,
                 Err((m, hang)) => return Err(fail(prop, if hang { "hang" } else { "panic" }, format!("call {} {:?}: {}", i, piece, m))),
             };
+            if let Err(e) = &r {
+                // a card that needs more ACMD41 polls than the driver's budget: the first use
+                // times out (legitimately); the driver must start over with CMD0 on the retry
+                if c.timing.init_polls > 10_000 && !init_failed_once && (e.contains("TimeoutACommand") || e.contains("get_card_type() = None")) {
+                    init_failed_once = true;
+                    acc.class("first-initialisation-timed-out");
+                    (r, start, count) = match do_call(&sd, &card, &piece, blocks_cap, &written) {
+                        Ok(x) => x,
+                        Err((m, hang)) => return Err(fail(prop, if hang { "hang" } else { "panic" }, format!("call {} {:?}: {}", i, piece, m))),
+                    };
+                }
+            }
             let out = match r {
                 Ok(o) => o,
                 Err(e) => return Err(fail(prop, "call-failed", format!("call {} {:?} (blocks {}..{}) on a healthy {:?} card failed: {}", i, piece, start, start + count, c.kind, e))),
@@ -408,7 +448,10 @@ fn call_code(c: &SdCall) -> u8 {
 
 /// C13: one fault (or a small set) injected into a C12-style sequence.
 pub fn run_c13(c: &SdCase, acc: &mut Acc) -> Result<(), Failure> {
-    let card = SimCard::new(c.kind, c.timing.clone(), c.cap.clone(), c.bg_seed, c.faults.clone());
+    // slow-to-initialise cards belong to C12/C14; here the card is healthy until the fault
+    let mut timing = c.timing.clone();
+    timing.init_polls = timing.init_polls.min(6);
+    let card = SimCard::new(c.kind, timing, c.cap.clone(), c.bg_seed, c.faults.clone());
     card.0.borrow_mut().monitor_on = false;
     let delay = NoDelay(Rc::new(std::cell::Cell::new(0)));
     let sd: Drv = SdCard::new_with_options(card.clone(), delay, AcquireOpts { use_crc: c.use_crc, acquire_retries: c.acquire_retries.max(1) as u32 + c.timing.cmd0_ignored as u32 });
@@ -585,7 +628,7 @@ pub fn capacity_strategy(kind: Kind) -> BoxedStrategy<Capacity> {
 
 pub fn timing_strategy(near_budget: bool) -> BoxedStrategy<Timing> {
     let big = if near_budget { prop_oneof![4 => (0u16..40), 1 => (9_990u16..9_999)].boxed() } else { (0u16..40).boxed() };
-    (0u8..9, big.clone(), prop_oneof![3 => (0u16..60), 1 => Just(0u16)], (0u16..60), 0u8..6, prop_oneof![4 => Just(0u8), 1 => (1u8..3)])
+    (0u8..9, big.clone(), prop_oneof![3 => (0u16..60), 1 => Just(0u16)], (0u16..60), prop_oneof![9 => (0u16..6), 1 => (10_001u16..10_040)], prop_oneof![4 => Just(0u8), 1 => (1u8..3)])
         .prop_map(|(ncr, token_delay, busy_write, busy_stop, init_polls, cmd0_ignored)| Timing { ncr, token_delay, busy_write, busy_stop, init_polls, cmd0_ignored })
         .boxed()
 }
